@@ -19,13 +19,20 @@ fn add_op_with_refs(c: &mut Circuit, op: &str, cells: &[Rc<RefCell<f64>>]) -> q1
     let k: usize = t[1].parse().unwrap();
     let bits: Vec<usize> = t[2..2 + k].iter().map(|s| s.parse().unwrap()).collect();
     let name = t[2 + k];
-    let cell: usize = t[3 + k][1..].parse().unwrap();
-    let p = Parameter::from_refcell(&cells[cell], &format!("p{}", cell));
+    // every parameter token is either `@cell` (reference) or the bit pattern of a direct value
+    let par = |tok: &str| -> Parameter {
+        if tok.starts_with('@') { let cell: usize = tok[1..].parse().unwrap(); Parameter::from_refcell(&cells[cell], &format!("p{}", cell)) }
+        else { Parameter::Direct(f64::from_bits(u64::from_str_radix(tok, 16).unwrap())) }
+    };
+    let p = par(t[3 + k]);
     match name
     {
         "RX" => c.add_gate(RX::new(p), &bits), "RY" => c.add_gate(RY::new(p), &bits), "RZ" => c.add_gate(RZ::new(p), &bits),
         "U1" => c.add_gate(U1::new(p), &bits), "CRX" => c.add_gate(CRX::new(p), &bits), "CRY" => c.add_gate(CRY::new(p), &bits),
-        "CRZ" => c.add_gate(CRZ::new(p), &bits), other => panic!("no ref form for {}", other)
+        "CRZ" => c.add_gate(CRZ::new(p), &bits),
+        "U2" => c.add_gate(U2::new(p, par(t[4 + k])), &bits),
+        "U3" => c.add_gate(U3::new(p, par(t[4 + k]), par(t[5 + k])), &bits),
+        other => panic!("no ref form for {}", other)
     }
 }
 
@@ -56,6 +63,14 @@ fn main()
             {
                 let a = rng.below(ct.nq as u64) as usize; let mut b = rng.below(ct.nq as u64) as usize; if b == a { b = (a + 1) % ct.nq; }
                 format!("gate 2 {} {} {} @{}", a, b, rng.pick(&["CRX", "CRY", "CRZ"]), rng.below(NCELLS as u64))
+            }
+            else if rng.below(3) == 0
+            {
+                // U2 / U3 with every mix of direct and reference parameters (at least one reference)
+                let (nm, np) = if rng.coin() { ("U2", 2) } else { ("U3", 3) };
+                let mask = 1 + rng.below((1 << np) - 1);
+                let toks: Vec<String> = (0..np).map(|j| if (mask >> j) & 1 == 1 { format!("@{}", rng.below(NCELLS as u64)) } else { fbits(gate::gen_angle(&mut rng)) }).collect();
+                format!("gate 1 {} {} {}", rng.below(ct.nq as u64), nm, toks.join(" "))
             }
             else { format!("gate 1 {} {} @{}", rng.below(ct.nq as u64), rng.pick(&["RX", "RY", "RZ", "U1"]), rng.below(NCELLS as u64)) };
             let pos = rng.below(ct.ops.len() as u64 + 1) as usize;
